@@ -135,9 +135,32 @@ def _sig_sticky_escapes(case: dict, f: Failure) -> bool:
     return norm(via) == norm(direct)
 
 
+def _sig_quoted_word_after_definition(case: dict, f: Failure) -> bool:
+    """Same root cause as C01's finding of this name: a paragraph directly under a link definition starts with a quoted word;
+    a narrow pass leaves that word alone on its line, where it reads as the definition's title."""
+    import re
+
+    x = case["text"] if case["kind"] == "twopass" else layout.realize(case["raw"], case["seed1"])
+    return re.search(r"^[ \t>]*\[[^\]\n]+\]:[^\n]*\n[ \t>]*[\"'(]", x, re.M) is not None
+
+
+def _sig_tag_block_heuristics(case: dict, f: Failure) -> bool:
+    """Same family as C02 tag-block-heuristics-second-run / C01 block-like-line-next-to-tag-line: a paragraph holds a line
+    that starts or ends with a tag delimiter and a line that looks like block content (also an escaped numeral, which the
+    renderer un-escapes)."""
+    import re
+
+    from vf.props import c01
+
+    xs = [case["text"]] if case["kind"] == "twopass" else [layout.realize(case["raw"], case["seed1"]), layout.realize(case["raw"], case["seed2"])]
+    return any(c01.tag_and_block_like_paragraph(re.sub(r"(\d)\\([.)])", r"\1\2", x)) for x in xs)
+
+
 DECOMPOSE_KEY = ("text", "raw")  # several recorded findings in one document: see core.sig_hit
 
 SIGS = {
+    "quoted_word_after_definition": _sig_quoted_word_after_definition,
+    "tag_block_heuristics": _sig_tag_block_heuristics,
     "sticky_wrap_escapes": _sig_sticky_escapes,
     "semantic_sentence_start_unescaped": _sig_semantic_first,
     "hardbreak_in_setext_heading": _sig_hardbreak_setext,
@@ -155,6 +178,16 @@ def _relayout_case(draw, feat: frozenset):
 
 
 @st.composite
+def _relayout_typography_case(draw, feat: frozenset):
+    """Relation (a) with the typography and cleanup options on (the same options for both layouts): documents with quote
+    and dot tokens."""
+    case = draw(_relayout_case(frozenset(feat | {"quotes", "dots"})))
+    case["opts"].update(smartquotes=draw(st.booleans()), ellipses=draw(st.booleans()), cleanups=draw(st.booleans()),
+                        list_spacing=draw(st.sampled_from(["preserve", "loose", "tight"])))
+    return case
+
+
+@st.composite
 def _twopass_case(draw, feat: frozenset):
     text = draw(textgen.doc(feat, depth=2, hi=4))
     w = opts.width_strategy()
@@ -165,7 +198,8 @@ def shard_work(ctx: Ctx) -> None:
     # tag lines are left out: a paragraph that directly follows a tag line makes every newline in it significant
     # to flowmark's block heuristics, which is outside "a newline directly before or after a tag"
     feat = frozenset((docdomain.features("C03", ctx) - {"tagline"}) | {"no_lone_tick"})
-    ctx.run_hypothesis("relayout", _relayout_case(feat), ctx.n(5000, 200000))
+    ctx.run_hypothesis("relayout", _relayout_case(feat), ctx.n(4000, 160000))
+    ctx.run_hypothesis("relayout_typography", _relayout_typography_case(feat), ctx.n(2000, 80000))
     # relation (b): no inline tags/comments, no hazard words (none are in the C03 feature set)
     feat_b = frozenset(feat - {"tags", "html", "tagline"})
     ctx.run_hypothesis("two_pass_histories", _twopass_case(feat_b), ctx.n(4000, 150000))
